@@ -325,6 +325,30 @@ def check_C16(ctx):
         if o is None or ' ok=1' not in o:
             ctx.violation('bytecode-not-wellformed', 'compiler output fails the bytecode verifier (whose certificate orders routines): %s' % (o or '')[:200], c['text'])
         ctx.dist('maxstack_%s' % fr['maxstack'])
+    # the bound holds in every HISTORY of API calls, not only in one run: run / reset / run / step / reset / run
+    hreqs, hidx = [], []
+    for i, (c, x) in enumerate(zip(cases, a)):
+        if c['defs'] is not None and not is_crash(x) and fields(x).get('ok') == '1' and len(hreqs) < ctx.n(120, 1200):
+            fx = fields(x)
+            hist = r.choice([['E', 'r', 'E', 'r', 'E'], ['s'] * 5 + ['r', 'E', 'r', 's', 's', 'E'], ['t1', 'e', 'e', 'r', 'E', 'r', 'E'], ['r', 'E', 'r', 'r', 'E']])
+            hist = [('e' if op == 'E' else op) for op in hist]      # capped resume: the source may not terminate
+            hreqs.append('VM %s ops=%s cap=30000' % (' '.join('%s=%s' % (k, fx[k]) for k in ('code', 'maps', 'pb', 'li')), ','.join(hist)))
+            hidx.append(i)
+    houts = impl(ctx, hreqs, timeout=120)
+    for i, o in zip(hidx, houts):
+        c = cases[i]
+        ctx.cov['evaluations'] += 1
+        if is_crash(o):
+            ctx.violation('vm-crash', 'a run / reset / run history crashed: ' + o[:200], c['text'])
+            continue
+        nprogs = len(c['defs'])
+        for k_, dump in enumerate(o[3:].split('|')):
+            stk = [p_ for p_ in dump.split(';') if p_.startswith('stk=')]
+            depth = 0 if not stk or stk[0] == 'stk=-' else stk[0].count(',') + 1
+            if depth > nprogs + 1:
+                ctx.violation('stack-unbounded', 'after call %d of a run / reset / run history the activation stack holds %d activations with %d program definitions' % (k_, depth, nprogs), c['text'])
+                break
+    ctx.count('VM', len(hreqs))
     # token-level neighbours of LOOP-only sources (no WHILE / GOTO / IF token anywhere): whatever the compiler accepts must halt
     from gen import strict
     LOOPVOC = ['LOOP', 'Loop', 'DO', 'END', ';', ':=', '!= 0', '=', 'x0', 'x1', 'a', '1', '2', '+', '-', 'STOP', ',', 'RUN', 'WITH', 'f0', ':']
